@@ -125,6 +125,21 @@ func genAppMessage(t *rapid.T, s *sim, useDict bool, id string) (*quickfix.Messa
 		if maxIsGroup {
 			shape = "ends-with-group"
 		}
+		if rapid.IntRange(0, 2).Draw(t, "without-marker") == 0 {
+			// exactly the dictionary's fields: the body may then start with a group (News: 33 first)
+			if len(items) > 0 && items[0].IsGroup {
+				minTag := items[0].Tag
+				for _, it := range items {
+					if it.Tag < minTag {
+						minTag = 0
+					}
+				}
+				if minTag != 0 {
+					shape = "starts-with-group"
+				}
+			}
+			return m, shape
+		}
 		m.Body.SetString(11, id) // ClOrdID-like marker (defined in almost every message; harmless otherwise)
 		if 11 > maxTag {
 			shape = "plain"
